@@ -159,7 +159,7 @@ impl<A: Send + 'static> Cell<A> {
                                 is_first
                             });
                             if is_first {
-                                sodium_ctx.post(move || {
+                                sodium_ctx.pre_post(move || {
                                     c.with_data(|data: &mut CellData<A>| {
                                         let mut next_value_op: Option<A> = None;
                                         mem::swap(&mut next_value_op, &mut data.next_value_op);
